@@ -191,7 +191,9 @@ Record fspec := mkSpec {
   s_field : string;
   s_guard : sguard;
   s_init : list string;               (* functions that run before the object is published *)
-  s_except : list (string * N)        (* (function, finding code): accesses known to ignore the guard *)
+  s_except : list (string * N)        (* (function, code): accesses known to ignore the guard; code >= 20: a
+                                         recorded finding; code 0: ordered with the guarded accesses by a
+                                         mechanism outside this model (channel rendezvous), hand-justified *)
 }.
 
 Definition is_write (r : rw) : bool := match r with W => true | R => false end.
@@ -228,7 +230,9 @@ Fixpoint assoc_code (fn : string) (l : list (string * N)) : option N :=
 
 (* codes: [] fine; 1 = the field is not in the specification (correspondence broken);
    10 = access that ignores the declared guard and is not a recorded exception;
-   >= 20 = a recorded finding (one code per racy field). *)
+   >= 20 = a recorded finding (one code per racy field).  An exception with code 0 is a
+   trusted ordering outside the model: it yields no code, but the field is then not among
+   the unconditionally protected ones (s_except <> []). *)
 Definition check_fact (specs : list fspec) (f : fact) : codes :=
   match find_spec specs (f_struct f) (f_field f) with
   | None => [1%N]
@@ -238,7 +242,7 @@ Definition check_fact (specs : list fspec) (f : fact) : codes :=
            | SRacy c => [c]
            | g => if late_ok g f then []
                   else match assoc_code (f_fn f) (s_except s) with
-                       | Some c => [c]
+                       | Some c => if N.eqb c 0 then [] else [c]
                        | None => [10%N]
                        end
            end
